@@ -18,7 +18,9 @@ CHECKS = {
              "worksteal: system-level at-most-once incl. withdrawals in flight (ExactlyOnceSteal.v). Partial: exactly-once at the end is proved for load; worksteal has at-most-once; the loadscope family has the per-operation conservation laws.",
              design="5/C01", technique=TECH),
  "C02": dict(text=SYS + "Proved (all states): each scheduling decision leaves the node with >=2 tests, a shutdown, an owed steal answer or an empty pool; tests_finished => shutdown triggered; "
-             "a worker with a successor can always step. Composition into 'no reachable stuck state' is searched by the stuck-state monitor: partial.", design="5/C02", technique=TECH),
+             "a worker with a successor can always step. SYSTEM level for --dist load without worker failure (Progress.v, Termination.v), every configuration and schedule: no stand-off "
+             "(some component can always make a useful move while the session has not ended) and TERMINATION (an explicit measure decreases with every useful step; a maximal run has ended). "
+             "Partial: with worker failures, and for the other modes, the composition into 'no reachable stuck state' is searched by the stuck-state monitor and the worker-level race search, not proved.", design="5/C02", technique=TECH),
  "C03": dict(text=SYS + "Proved (all states/events): one death notice yields at most one crash report, no other event yields one; the crash item is the head of the dead node's book / first "
              "undone test, the rest returns to the pool once, finished units are not re-queued.", design="5/C03", technique=TECH),
  "C04": dict(text=SYS + "Proved at SYSTEM level for every configuration and schedule (crashes, replacements): produced(n) = forwarded(n) ++ in controller queue ++ on the wire (FIFO, once, tagged). "
@@ -27,7 +29,8 @@ CHECKS = {
              "announced next item = next test run, None only last, nothing withdrawn was started/announced, completeness at the marker, exact has-items flag. Tied to the real TestQueue/WorkerInteractor "
              "under a cooperative scheduler at lock-section granularity.", design="5/C05", technique=TECH),
  "C06": dict(text=SYS + "Proved over arbitrary strings: the three key functions on well-formed ids (and refutations for ids with '::' in parameters / ']' in group names: known findings); units are built in "
-             "collection order, sent whole in one command to one node, re-queued whole after a crash; the worker's half (the hook writing '@group' into a marked test's id) is modelled and composed with the controller's key function (GroupMarkProofs.marked_key_is_group).", design="5/C06", technique=TECH),
+             "collection order, sent whole in one command to one node, re-queued whole after a crash; the worker's half (the hook writing '@group' into a marked test's id) is modelled and composed with the controller's key function (GroupMarkProofs.marked_key_is_group). SYSTEM level (ScopeSystem.v; loadscope/loadfile/loadgroup, no worker failure, every schedule): "
+             "one worker per group, the group contiguous on it, in collection order, no test started twice.", design="5/C06", technique=TECH),
  "C07": dict(text="Worker side proved for all interleavings (all-or-nothing, exact reply, order kept, nothing started is withdrawn); controller side proved for all scheduler states (one request outstanding, "
              "tail only, >=2 left, reply processing, dead victim cancels). " + SYS, design="5/C07", technique=TECH),
  "C08": dict(text=SYS + "Proved (all states): initial node gets run-all+shutdown and is booked everything; crash keeps the remainder other than the crashed test and blocks tests_finished; an equal-spec, "
